@@ -344,6 +344,25 @@ impl CharSet for Utf8CharSet {
     fn next_char<I: Iterator<Item=u8>>(
         iter: &mut I
     ) -> Result<Option<char>, CharSetError> {
+        /// Returns whether `ch` is a continuation octet, i.e., `10xx xxxx`.
+        fn is_continuation(ch: u8) -> bool {
+            ch & 0xC0 == 0x80
+        }
+
+        /// Converts a decoded code point into a character.
+        ///
+        /// Fails if the code point is below `min`, i.e., wasn’t encoded in
+        /// the shortest form, or isn’t a Unicode scalar value, i.e., is a
+        /// surrogate or above U+10FFFF (RFC 3629, section 3 and 4).
+        fn to_char(
+            code: u32, min: u32
+        ) -> Result<Option<char>, CharSetError> {
+            if code < min {
+                return Err(CharSetError)
+            }
+            char::from_u32(code).map(Some).ok_or(CharSetError)
+        }
+
         let first = match iter.next() {
             Some(ch) => ch,
             None => return Ok(None)
@@ -355,48 +374,45 @@ impl CharSet for Utf8CharSet {
             Some(ch) => ch,
             None => return Err(CharSetError),
         };
-        if first < 0xC0 || second < 0x80 {
+        if first < 0xC0 || !is_continuation(second) {
             return Err(CharSetError)
         }
         if first < 0xE0 {
-            return Ok(Some(unsafe {
-                char::from_u32_unchecked(
-                    ((u32::from(first & 0x1F)) << 6) |
-                    u32::from(second & 0x3F)
-                )
-            }))
+            return to_char(
+                ((u32::from(first & 0x1F)) << 6) |
+                u32::from(second & 0x3F),
+                0x80
+            )
         }
         let third = match iter.next() {
             Some(ch) => ch,
             None => return Err(CharSetError)
         };
-        if third < 0x80 {
+        if !is_continuation(third) {
             return Err(CharSetError)
         }
         if first < 0xF0 {
-            return Ok(Some(unsafe {
-                char::from_u32_unchecked(
-                    ((u32::from(first & 0x0F)) << 12) |
-                    ((u32::from(second & 0x3F)) << 6) |
-                    u32::from(third & 0x3F)
-                )
-            }))
+            return to_char(
+                ((u32::from(first & 0x0F)) << 12) |
+                ((u32::from(second & 0x3F)) << 6) |
+                u32::from(third & 0x3F),
+                0x800
+            )
         }
         let fourth = match iter.next() {
             Some(ch) => ch,
             None => return Err(CharSetError)
         };
-        if first > 0xF7 || fourth < 0x80 {
+        if first > 0xF7 || !is_continuation(fourth) {
             return Err(CharSetError)
         }
-        Ok(Some(unsafe {
-            char::from_u32_unchecked(
-                ((u32::from(first & 0x07)) << 18) |
-                ((u32::from(second & 0x3F)) << 12) |
-                ((u32::from(third & 0x3F)) << 6) |
-                u32::from(fourth & 0x3F)
-            )
-        }))
+        to_char(
+            ((u32::from(first & 0x07)) << 18) |
+            ((u32::from(second & 0x3F)) << 12) |
+            ((u32::from(third & 0x3F)) << 6) |
+            u32::from(fourth & 0x3F),
+            0x1_0000
+        )
     }
 
     fn from_str(s: &str) -> Result<Cow<[u8]>, CharSetError> {
